@@ -86,6 +86,19 @@ pub fn explore(args: &[String]) {
             }
             println!("corpus {} programs; worst ticks/byte = {:.2} (len {}, ticks {})", corpus.len(), worst.0, worst.1, worst.2);
         }
+        Some("dump-corpus") => {
+            // qv explore dump-corpus <dir> — one file per harvested program (fuzzer seeds)
+            let dir = &args[1];
+            std::fs::create_dir_all(dir).expect("mkdir");
+            let mut n = 0;
+            for (i, s) in crate::corpus::all_sources().iter().enumerate() {
+                if s.len() <= 4096 && c18::excluded(s).is_none() {
+                    std::fs::write(format!("{dir}/seed-{i:04}.qv"), s).expect("write");
+                    n += 1;
+                }
+            }
+            println!("{n} seeds written to {dir}");
+        }
         Some("eval") => {
             // qv explore eval <file> [quantum] — programs separated by a line "===="
             let src = std::fs::read_to_string(&args[1]).expect("read");
